@@ -595,6 +595,14 @@ impl C14 {
                             let n = s.nsess.entry((conn, id)).or_insert(0);
                             let sess_no = *n;
                             *n += 1;
+                            if raw {
+                                // three-way OPEN: no transient stream before the peer's OPEN of this session
+                                let opened = sess.peer.get(&(conn, id)).map(|pk| pk.sessions.len()).unwrap_or(0);
+                                let wf = sess.peer.get(&(conn, id)).map(|pk| pk.wf).unwrap_or(true);
+                                if wf && opened <= sess_no {
+                                    fail("stream_before_peer_open", format!("side {si} slot {slot}: transient stream {} on ({conn},{id}) handed out, the peer has sent {opened} OPEN frames on it", sess_no + 1));
+                                }
+                            }
                             s.written.insert((conn, id, sess_no), (vec![], false));
                             *st = SlotSt::Held(Held {
                                 conn,
@@ -701,11 +709,16 @@ impl C14 {
                     }
                     let mut got: usize = 0;
                     let mut pieces: u64 = 0;
-                    for f in sess.sent.iter().filter(|f| f.known && f.is_data && f.conn == h.conn && f.id == h.id && f.start >= h.handover_off) {
-                        if pulled > f.pstart {
-                            let n = std::cmp::min(pulled, f.end) - f.pstart;
-                            got += n;
-                            pieces += (n as u64).div_ceil(std::cmp::max(s.cfg[0], 1));
+                    for f in sess.sent.iter().filter(|f| f.known && f.conn == h.conn && f.id == h.id && f.start >= h.handover_off) {
+                        if f.is_data {
+                            if pulled > f.pstart {
+                                let n = std::cmp::min(pulled, f.end) - f.pstart;
+                                got += n;
+                                pieces += (n as u64).div_ceil(std::cmp::max(s.cfg[0], 1));
+                            }
+                        } else if pulled > f.end {
+                            // a control frame after which more has been pulled has been queued: it holds a count permit
+                            pieces += 1;
                         }
                     }
                     // bytes read by the application in this hold come first out of `got` (an under-approximation
@@ -747,6 +760,17 @@ impl C14 {
         obs.insert("done".into(), Value::Array(done));
         obs.insert("_adv".into(), Value::Array(adv));
         obs.insert("res".into(), json!(res));
+        // outcome class of the op (generator statistics; also compared)
+        let ndone = obs["done"].as_array().map(|a| a.len()).unwrap_or(0);
+        let nout = obs["out"].as_array().map(|a| a.len()).unwrap_or(0) + obs.get("outB").and_then(|a| a.as_array()).map(|a| a.len()).unwrap_or(0);
+        let cls = format!(
+            "{}/{}/{}{}",
+            res,
+            obs["run"].as_str().unwrap_or(""),
+            if ndone > 0 { "done" } else { "-" },
+            if nout > 0 { "+out" } else { "" }
+        );
+        obs.insert("class".into(), json!(cls));
         Value::Object(obs)
     }
 }
